@@ -837,7 +837,7 @@ func (m *Meta) dropFkeys(mu *metaUpdate, drop *schema.Schema) {
 	for i := range idxs {
 		idx := schema.FindIndex(idxs[i].Columns)
 		fk := idx.Fk
-		if fk.Table == "" || fk.Table == drop.Table {
+		if fk.Table == "" {
 			continue
 		}
 		fkCols := fk.Columns
@@ -845,6 +845,11 @@ func (m *Meta) dropFkeys(mu *metaUpdate, drop *schema.Schema) {
 			fkCols = idx.Columns
 		}
 		target := mu.getSchema(fk.Table)
+		if fk.Table == drop.Table && (target == nil || target.IsTomb()) {
+			// recursive foreign key and the table itself is going away
+			// (Drop or RenameTable) so there is nothing to update
+			continue
+		}
 		if target == nil {
 			log.Println("foreign key: can't find", fk.Table, "(from "+drop.Table+")")
 			continue
